@@ -87,6 +87,10 @@ type meshReport struct {
 func checkClosed3(ts []*sdf.Triangle3, tol float64) meshReport {
 	rep := meshReport{Triangles: len(ts)}
 	vs := make([]v3.Vec, 0, 3*len(ts))
+	var ref v3.Vec // volume is summed about a point of the mesh: about the origin it cancels catastrophically for far-away parts
+	if len(ts) > 0 {
+		ref = ts[0][0]
+	}
 	for _, t := range ts {
 		for k := 0; k < 3; k++ {
 			if math.IsNaN(t[k].X+t[k].Y+t[k].Z) || math.IsInf(t[k].X+t[k].Y+t[k].Z, 0) {
@@ -97,7 +101,7 @@ func checkClosed3(ts []*sdf.Triangle3, tol float64) meshReport {
 		if t[0] == t[1] || t[1] == t[2] || t[2] == t[0] {
 			rep.IdenticalVert++
 		}
-		rep.Volume += t[0].Dot(t[1].Cross(t[2])) / 6
+		rep.Volume += t[0].Sub(ref).Dot(t[1].Sub(ref).Cross(t[2].Sub(ref))) / 6
 	}
 	if rep.NaN > 0 {
 		return rep
